@@ -29,7 +29,7 @@ MANIFEST_ENTRY = {
 ANCHOR_RANGES = [("jsonrpclib/SimpleJSONRPCServer.py", 112, 185), ("jsonrpclib/SimpleJSONRPCServer.py", 222, 400),
                  ("jsonrpclib/config.py", 58, 154), ("jsonrpclib/jsonrpc.py", 1045, 1086), ("jsonrpclib/jsonrpc.py", 1195, 1262)]
 RULE = ("history: sequences of <= 6 request bodies over %d kinds (1.0-form / 2.0-form x call, failing call, unknown method, "
-        "notification, invalid; non-object, empty array, kwargs call, bad arity, three batches mixing them, unparsable text, "
+        "notification, invalid; non-object, no version marker, empty array, kwargs call, bad arity, three batches mixing them, unparsable text, "
         "empty body): all sequences of length <= 2 (quick) / <= 3 (thorough), longer ones random, x (own Config 1.0, own Config "
         "2.0, DEFAULT as server config) x 3 dispatch kinds, non-default contents in both tables; snapshot of server Config and "
         "DEFAULT (6 attributes, identity and contents of classes / serialize_handlers) and list of attribute / table writes "
